@@ -18,3 +18,60 @@ func specNextMidnightUTC(t time.Time) time.Time {
 func specDueAfterDays(start time.Time, days int32) time.Time {
 	return specNextMidnightUTC(start.Add(time.Duration(days) * specDay))
 }
+
+func vqForall(lo int, hi int, f func(int) bool) bool {
+	for i := lo; i < hi; i++ {
+		if !f(i) {
+			return false
+		}
+	}
+	return true
+}
+
+func vqExists(lo int, hi int, f func(int) bool) bool {
+	for i := lo; i < hi; i++ {
+		if f(i) {
+			return true
+		}
+	}
+	return false
+}
+
+func specTagMatches(tag LifecycleTag, tags map[string]string) bool {
+	v, ok := tags[tag.Key]
+	return ok && v == tag.Value
+}
+
+// specRuleSelects: S3 lifecycle filter semantics. A rule selects an object iff the key starts with the rule's prefix
+// and, when the rule has a filter, the object is larger than ObjectSizeGreaterThan, smaller than ObjectSizeLessThan
+// (the values inside And take precedence) and carries every tag of the filter (Tag and And.Tags).
+func specRuleSelects(rule *LifecycleRule, key string, size int64, tags map[string]string) bool {
+	if len(key) < len(lifecycleRulePrefix(rule)) || key[:len(lifecycleRulePrefix(rule))] != lifecycleRulePrefix(rule) {
+		return false
+	}
+	f := rule.Filter
+	if f == nil {
+		return true
+	}
+	gt := f.ObjectSizeGreaterThan
+	lt := f.ObjectSizeLessThan
+	if f.And != nil && f.And.ObjectSizeGreaterThan != nil {
+		gt = f.And.ObjectSizeGreaterThan
+	}
+	if f.And != nil && f.And.ObjectSizeLessThan != nil {
+		lt = f.And.ObjectSizeLessThan
+	}
+	if gt != nil && size <= *gt {
+		return false
+	}
+	if lt != nil && size >= *lt {
+		return false
+	}
+	if f.Tag != nil && !specTagMatches(*f.Tag, tags) {
+		return false
+	}
+	if f.And != nil && !vqForall(0, len(f.And.Tags), func(k int) bool { return specTagMatches(f.And.Tags[k], tags) }) {
+		return false
+	}
+	return true
+}
